@@ -53,6 +53,11 @@ def evaluate(case, out):
         out.cls("more-auditable-ballots-than-records")
     opt = ir.min_max_difficulty(cands, winner, true)
     out.enumerated = len(ir.alternative_orders(cands, winner))
+    if opt is not None and not res:
+        # a sufficient set of true assertions exists (its least possible largest difficulty is `opt`) and nothing is returned:
+        # there is no largest returned difficulty to equal it
+        out.fail("nothing-returned-although-the-optimum-is-finite", {"optimum": opt, "winner": winner})
+        return
     if opt is None or not res or any(as_tuple(a) is None for a in res):
         out.skip("audit-impossible-or-malformed(C04)")
         return
